@@ -407,7 +407,16 @@ func c11Transcript(req c11Req, o *ref.Oracle, resp *drv.Response, rng *rand.Rand
 	}
 	for _, variant := range req.Variants {
 		l := data.Load(inst, req.K)
-		if variant == "random" {
+		base := variant
+		if i := strings.Index(variant, "+pow"); i >= 0 {
+			// the transcript does not depend on the grinding difficulty: plonky2 always observes the witness and draws the response
+			var pb uint64
+			fmt.Sscanf(variant[i+4:], "%d", &pb)
+			l.Common.Config.FriConfig.ProofOfWorkBits = pb
+			l.Common.FriParams.Config.ProofOfWorkBits = pb
+			base = variant[:i]
+		}
+		if base == "random" {
 			for _, lf := range data.Walk(&l.PWPI) {
 				if lf.GL {
 					lf.Set(drv.RandBelow(rng, bigP))
